@@ -98,3 +98,12 @@ known("C12","C12-number-keys-are-text","number-typed key attributes are identifi
  {"history":["CreateTable tab (h:N)","PutItem {h:1}"],"op":"GetItem {h:1.0} -> nothing"})
 fixed("C14","C14-v1-shares-caller-memory","SDK v1 client no longer shares memory","v1: mutating a *string/*bool/byte/set member of a structure passed to PutItem/BatchWriteItem/UpdateItem, or returned by GetItem/Query/Scan/UpdateItem, changed the stored item")
 fixed("C14","C14-v2-shares-binary-and-bool","SDK v2 client copies binary and boolean","v2: the byte slices of B/BS values and the BOOL member's field were shared between the caller's structures and the stored item")
+import itertools as _it
+_tags = ["undefined-name", "undefined-value", "unused-name-that-is-prefix-of-a-used-one", "unused-value-that-is-prefix-of-a-used-one"]
+_combos = ["+".join(sorted(c)) for n in range(1, 5) for c in _it.combinations(_tags, n)]
+known("C16","C16-placeholder-validation-by-substring","supplied-vs-used validation of expression attribute names/values is a substring test and only runs one way: a supplied placeholder that is a prefix of a used one (:a next to :ab) counts as used, and a placeholder used in an expression but never supplied is silently evaluated as an absent attribute. Both are relied upon by the repository's own TestUpdateItemWithConditionalExpression (it supplies :ntyp and uses :ntype), so they cannot be repaired without editing that test. Plain unused placeholders are rejected correctly",
+ ["C16|placeholders|%s|accepted@%s" % (c, d) for c in _combos for d in ("v1", "v2")],
+ {"op":"Scan FilterExpression 'z = :ab' with ExpressionAttributeValues {:a, :ab} -> accepted; Scan FilterExpression 'z = :a' with no values -> accepted"})
+known("C16","C16-key-condition-shape-not-validated","Query executes any condition given as KeyConditionExpression: conditions without the partition key, inequalities or functions on the partition key, OR / NOT, non-key attributes, two sort-key conditions, <> / contains / attribute_exists on the sort key, and a missing key condition are all evaluated per item like a filter (Table.matchKey never compares the condition's shape with the key schema); adding a shape validator is a new component rather than a small repair",
+ ["C16|key-condition|%s|invalid-shape-executed@%s" % (w, d) for w in ("base", "index") for d in ("v1", "v2")],
+ {"op":"Query KeyConditionExpression 'h = :h OR r = :r' -> executed and returns items"})
